@@ -94,7 +94,7 @@ structure Skel.Ok (k : Skel) : Prop where
   hblocks : k.blocks.all blockOk = true
   hhdr : fvHdrLen k.blocks < 65536
   hext : ∀ e, k.ext = some e → e.fvName.length = 16 ∧ ehoOf k.blocks k.ext < 65536 ∧ 20 + e.data.length < 4294967296 ∧
-      ehoOf k.blocks k.ext + 20 < k.len
+      ehoOf k.blocks k.ext + 20 ≤ k.len
   hlen8 : k.len % 8 = 0
   hlen64 : 64 ≤ k.len
   hlenlt : k.len < 2 ^ 63
